@@ -71,24 +71,26 @@ impl<T> core::convert::From<cbor::de::Error<T>> for CoseError {
 }
 
 impl<T> core::convert::From<cbor::ser::Error<T>> for CoseError {
+    #[verifier::external_body]
     fn from(_e: cbor::ser::Error<T>) -> Self {
         CoseError::EncodeFailed
-    }«
-}
+    }
+}«
 
 impl vstd::std_specs::convert::FromSpecImpl<core::num::TryFromIntError> for CoseError {
     open spec fn obeys_from_spec() -> bool { true }
     open spec fn from_spec(v: core::num::TryFromIntError) -> Self { CoseError::OutOfRangeIntegerValue }
 }
 impl<T> vstd::std_specs::convert::FromSpecImpl<cbor::ser::Error<T>> for CoseError {
-    open spec fn obeys_from_spec() -> bool { true }
+    // not needed: A-SER says serialisation into a Vec never fails, so this conversion is never taken
+    open spec fn obeys_from_spec() -> bool { false }
     open spec fn from_spec(e: cbor::ser::Error<T>) -> Self { CoseError::EncodeFailed }
 }
 pub uninterp spec fn de_err_conv<T>(e: cbor::de::Error<T>) -> cbor::de::Error<EndOfFile>;
 impl<T> vstd::std_specs::convert::FromSpecImpl<cbor::de::Error<T>> for CoseError {
     open spec fn obeys_from_spec() -> bool { true }
-    open spec fn from_spec(e: cbor::de::Error<T>) -> Self { CoseError::DecodeFailed(de_err_conv(e)) }»
-}
+    open spec fn from_spec(e: cbor::de::Error<T>) -> Self { CoseError::DecodeFailed(de_err_conv(e)) }
+}»
 
 impl core::convert::From<core::num::TryFromIntError> for CoseError {
     fn from(_p1: core::num::TryFromIntError) -> Self {
@@ -545,7 +547,26 @@ pub open spec fn wf_regp<T: EnumI64 + WithPrivateRange>(l: RegisteredLabelWithPr
     l matches RegisteredLabelWithPrivate::PrivateUse(i) ==> (T::spec_from_i64(i) is None && T::spec_is_private(i))
 }»
 
-/// Manual implementation of [`Ord`] to ensure that CBOR canonical ordering is respected.
+«pub open spec fn regp_as_label<T: EnumI64 + WithPrivateRange>(l: RegisteredLabelWithPrivate<T>) -> Label {
+    match l {
+        RegisteredLabelWithPrivate::Assigned(a) => Label::Int(a.spec_to_i64()),
+        RegisteredLabelWithPrivate::PrivateUse(i) => Label::Int(i),
+        RegisteredLabelWithPrivate::Text(t) => Label::Text(t),
+    }
+}
+impl<T: EnumI64 + WithPrivateRange> vstd::std_specs::cmp::PartialEqSpecImpl for RegisteredLabelWithPrivate<T> {
+    open spec fn obeys_eq_spec() -> bool { true }
+    open spec fn eq_spec(&self, other: &Self) -> bool { *self == *other }
+}
+impl<T: EnumI64 + WithPrivateRange> vstd::std_specs::cmp::OrdSpecImpl for RegisteredLabelWithPrivate<T> {
+    open spec fn obeys_cmp_spec() -> bool { true }
+    open spec fn cmp_spec(&self, other: &Self) -> Ordering { label_cmp(regp_as_label(*self), regp_as_label(*other)) }
+}
+impl<T: EnumI64 + WithPrivateRange> vstd::std_specs::cmp::PartialOrdSpecImpl for RegisteredLabelWithPrivate<T> {
+    open spec fn obeys_partial_cmp_spec() -> bool { true }
+    open spec fn partial_cmp_spec(&self, other: &Self) -> Option<Ordering> { Some(label_cmp(regp_as_label(*self), regp_as_label(*other))) }
+}
+»/// Manual implementation of [`Ord`] to ensure that CBOR canonical ordering is respected.
 impl<T: EnumI64 + WithPrivateRange> Ord for RegisteredLabelWithPrivate<T> {
     fn cmp(&self, other: &Self) -> Ordering {
         use RegisteredLabelWithPrivate::{Assigned, PrivateUse, Text};
